@@ -30,13 +30,13 @@ CLAIMS = {
             'day nine star for every solstice pillar are evaluated from the syntax tree as exhaustive tables and compared with the classical '
             'rules; the lunar-view and sexagenary-view copies are each checked. Civil days enter only as points of Z (day-line model).',
             'Assumes the day-line abstraction (C01/C07): consecutive integers, pillar (n+49) mod 60, weekday (n+1) mod 7. Not decided: on which '
-            'civil days the solstices fall (numeric), and the day star before the first turning day of a civil year beyond the -1/day recurrence.',
+            'civil days the solstices fall (numeric), and the day star before the first turning day of a civil year beyond the -1/day recurrence. Known finding: the day star panics for every day of year 1 (RANGE-END).',
             'DESIGN.md §3 C17'),
     'C08': ('PETE tables (Five Tigers) + real switching code evaluated on scenario calendars with the numeric layer replaced by oracles',
             'Five-Tigers first-month / month pillars for all 60 year pillars (both copies); the sexagenary-month carry incl. year 0; and the real '
             'year/month switching code of the day view (every day of a year x 5 positions of the lunar new year relative to Lichun) and of the '
             'instant view (all critical instants around the 12 Jie, comparator levels second/minute/hour exercised) are evaluated from the syntax '
-            'tree and compared with the Lichun/Jie rule; the two views are compared on every day without a Jie.',
+            'tree and compared with the Lichun/Jie rule; the two views are compared on every day without a Jie; the lunar-date twins and both eight-character providers carry the same pillars; both views on the first days of 0001 and the last days of 9999 (RANGE-END).',
             'The numeric layer (civil date<->day number, term days/instants, lunar month table) is replaced by independent stand-ins, so the verdict is '
             'about the switching structure, not about on which civil day a term falls (C05/C06). Scenario calendars are synthetic but respect the real '
             'calendar\'s ordering constraints (new year within Jan 21..Feb 20).', 'DESIGN.md §3 C08'),
@@ -44,7 +44,7 @@ CLAIMS = {
             'Hour pillar (branch, Five-Rats stem, 23:00 roll) for all 60 day pillars x 24 hours in the lunar view and on a scenario calendar in the '
             'instant view; slot indices; the eight characters are (year, month, day, hour) in order through the constructor and both providers; '
             'the inverse search is evaluated for 258 (instant, year range) samples covering every double-hour, Jie days, year ends and range edges: '
-            'every returned instant has the requested characters and one lies inside the originating double-hour.',
+            'every returned instant has the requested characters and one lies inside the originating double-hour; the same at both ends of the calendar (known finding: instants of year 1 before Lichun are never found).',
             'Numeric layer replaced by oracles as in C08. Completeness of the inverse search over arbitrary ranges on the real calendar is not decided.',
             'DESIGN.md §3 C09'),
     'C15': ('real series code evaluated by PETE on scenario calendars (numeric layer replaced by oracles) vs piecewise oracles',
@@ -72,7 +72,7 @@ CLAIMS = {
             'Civil nesting (year/half/season/month) as a closed system, month -> exactly the existing dates for 120 months incl. October 1582, day-of-year = position in the '
             'concatenated lists, lunar year -> 12/13 months incl. a leap month, lunar month -> days, lunar day -> 13 slots (regular and leap month), sexagenary day -> 12 slots from 23:00, '
             'sexagenary month -> days between consecutive Jie days.',
-            'Lunar month lengths and term days are scenario inputs (C03, C05/C06).', 'DESIGN.md §3 C13'),
+            'Lunar month lengths and term days are scenario inputs (C03, C05/C06), except the fitted new-moon table (TABLES-FIT, shared with C03: known finding 236-12) and the month list of the last lunar year (RANGE-END).', 'DESIGN.md §3 C13'),
     'C14': ('week code evaluated by PETE on calendar months for every start weekday and week index',
             'For 96+ civil months (all weekday/length combinations, October 1582) x 7 week starts: count, first day on the chosen weekday, seven consecutive days, 7 days apart, coverage; '
             'week-of-date contains the date for every day of 4 sample years incl. 1582; stepping by n moves the first day 7n days (1088 cases); index in year; the same for lunar months on a '
@@ -81,7 +81,7 @@ CLAIMS = {
     'C16': ('child-limit pipeline and fortune getters evaluated by PETE on a scenario calendar for dense birth instants x gender',
             'Direction truth table, governing Jie by instant (incl. births on a Jie day before/after the instant), the five exchange rates, calendar addition with chained carries, '
             'the China95 and sect-2 strategies, decade and yearly fortune affine forms: ~1,360 evaluated (birth, gender) points against the statement. The October-1582 addition defect is a listed known finding.',
-            'Numeric layer replaced by oracles (C01, C05/C06, C02/C03). LunarSect1 strategy not judged.', 'DESIGN.md §3 C16'),
+            'Numeric layer replaced by oracles (C01, C05/C06, C02/C03). All four shipped strategies are judged (the day / double-hour strategy against its documented rule); sibling fortune accessors must agree with the decade / yearly rule.', 'DESIGN.md §3 C16'),
     'C02': ('comparator decision tables; guards; both conversion directions evaluated (real search loop) on tiling scenario calendars; leap-table and solstice-anchor rules on the month records',
             'Lunar before/after/== over all order types incl. a month and its leap twin (day and hour level); constructor guards; civil->lunar->civil and lunar->civil->lunar are the '
             'identity and order preserving for every day and every lunar date of two scenario years with leap months, using the repository\'s own search loop; the stored leap table and the '
@@ -92,22 +92,22 @@ CLAIMS = {
             'The leap-month table decoded by its own initialiser: 12 columns, strictly increasing years in range, no year under two months, 2-3 year intercalation gaps outside the code\'s own reform windows, '
             '7+-1 leap months per 19 years; leap lookup for every year -1..9999; guards and month<->position maps of LunarMonth::new/next for all 13 leap positions; "next month starts where this one ends" '
             'stride agreement; month 1 placed 2 (3) lunations after the lunation containing the winter solstice for all 30 lunar phases (model).',
-            'Consecutive lunar years abut as a lunation-count identity for every year 0..9998 (TILE-CHAIN; known findings at 8/9, 23/24, 24/25). Not decided: 29/30-day lengths, year lengths (new-moon series values), the 239/240 break.', 'DESIGN.md §3 C03'),
+            'Consecutive lunar years abut as a lunation-count identity for every year 0..9998 (TILE-CHAIN; known findings at 8/9, 23/24, 24/25). The month list / month count / day count of a year for every leap position 1..12 (scenario); lunation lengths served by the fitted new-moon table over its whole range (TABLES-FIT; known finding: 28-day month 236-12). Not decided: 29/30-day lengths from the series, the 239/240 break.', 'DESIGN.md §3 C03'),
     'C04': ('packed-table necessary conditions + uniform-lunation model of the solstice-month anchoring (thin)',
             'Only necessary conditions: the stored leap table\'s order/uniqueness/intercalation rhythm, and that LunarMonth::new anchors month numbering on the lunation containing the winter solstice '
-            '(evaluated against a uniform-lunation model for every lunar phase at the solstice, incl. a new moon on the solstice day).',
+            '(evaluated against a uniform-lunation model for every lunar phase at the solstice, incl. a new moon on the solstice day); the cross-year lunation-count identity for every year outside the code\'s own reform windows; the year listing for every leap position.',
             'Whether the table and offsets agree with the library\'s own new-moon and major-term days is a relation between a literal and two float series and is NOT decided.', 'DESIGN.md §3 C04'),
     'C05': ('structural rules on literals and solver shape (thin): spline continuity at its own knots, table shapes/index bounds, correction-string coverage, solver structure',
             'TT-UT spline continuous within 5 s at all joins; series tables well-shaped and every loop index in bounds for every term-count argument; fit tables monotone with plausible rates; '
-            'correction strings over {0,1,2} and longer than the largest formable index; last Newton step uses the full series; the day-level solvers fall back to the precise solver within 300 s of civil midnight.',
+            'correction strings over {0,1,2} and longer than the largest formable index; last Newton step uses the full series; the day-level solvers fall back to the precise solver within 300 s of civil midnight and hand TT-UT a DAY value on every path (units); a term built by name, by index or by stepping is the same term (constructor agreement and floor carries, series stubbed).',
             'No accuracy clause of the statement is decided (series values). The series code is evaluated only for index behaviour / at the knots of its own tables.', 'DESIGN.md §3 C05'),
     'C06': ('sibling-constructor agreement under stubs; carry tables; day->term / instant->term searches evaluated on scenario calendars with modern, Julian-era and far-future term placements',
             'The two term constructors agree on (year, index, day-level JD) under two series stubs; stepping and constructing by index carry by floor incl. year 0; Jie/Qi parity; every civil day of a year and '
-            'all critical instants are assigned the latest term starting on or before them with day index from 0, for three placements of the term days in the civil months.',
+            'all critical instants are assigned the latest term starting on or before them with day index from 0, for four placements of the term days (incl. terms 0.3 s before midnight) and a day table that is a day off the precise instant; the first days of 0001 and the last days of 9999 (RANGE-END).',
             'Spacing/ordering of real term instants and the max day index 16 are series values (C05) and not decided.', 'DESIGN.md §3 C06'),
     'C07': ('residue-class anchor tables; all routes to pillar/weekday evaluated on scenario calendars; Julian-day formulas tabulated per (year, month)',
             'Pillar = (day number + 49) mod 60 from the lunar date for 320 (first day, day) pairs incl. range ends; weekday = (day number + 1) mod 7; every public route (lunar date, sexagenary day, instant view, civil date) '
-            'agrees and advances by one per day over ~470 consecutive days incl. lunar month ends, year ends and the 1582 cut-over; the civil date->day number link is tabulated for all 119,988 months in both directions.',
+            'agrees and advances by one per day over ~470 consecutive days incl. lunar month ends, year ends and the 1582 cut-over, and on the first days of 0001 / last days of 9999; the civil date->day number link is tabulated for all 119,988 months in both directions.',
             'Scenario lunar months tile by construction (real tiling is C03).', 'DESIGN.md §3 C07'),
     'C11': ('per-type sibling checks for 42 cycle types; Euclidean helper table; carry tables for linear units; lunar stepping on a scenario calendar',
             'Each cycle type is wired to its own name table in both constructors, has Euclidean indices, next() is a group action, name lookup is the inverse of get_name (first match) and unknown names are refused; '
@@ -122,7 +122,7 @@ CLAIMS = {
             'Inventory of every static (interior mutability, static mut, thread_local, unsafe) against a frozen list with reasons; who-may-touch per mutable static; strategy boxes never written by library code; '
             'the one memo is transparent (injective key over 33k keys incl. all digit-concatenation and affine collision families, value = f(args), writer/reader field agreement, one critical section, never shrinks, refusals store nothing); '
             'for every guard: no panic-capable callee while it is live unless the acquisition tolerates poisoning; no re-entrancy; lock order acyclic (dyn calls expanded to all impls); no clock/env/fs/net/thread/rng callee among all call sites; '
-            'hash-map iteration only where the leap table\'s uniqueness makes order irrelevant; values with RefCell memo cells are only built with empty cells in their constructor and each cell has one writer.',
+            'hash-map iteration only where the leap table\'s uniqueness makes order irrelevant; values with RefCell memo cells are only built with empty cells in their constructor, never copied (struct update, clone-then-assign) and each cell has one writer; no non-blocking acquisition without a blocking fall-back.',
             'Trusted: rustc nightly MIR and callee resolution; std Mutex/RefCell semantics. OS scheduling itself needs no argument once these hold. User-installed providers are outside the statement.',
             'DESIGN.md §3 C10'),
 }
